@@ -241,6 +241,15 @@ HARNESSES = [
             budget={'quick': {'wall_s': 300, 'query_timeout_ms': 60000}}),
 ]
 
+def _lengths_harness():
+    from harness import C01
+    h = [x for x in C01.HARNESSES if x.name == 'reciprocal-lengths'][0]
+    return Harness('graded-reciprocal-lengths', h.fn, h.modules, cases=h.cases, twins=h.twins,
+                   encodes=h.encodes, budget=h.budget, doc=h.fn.__doc__)
+
+
+HARNESSES.append(_lengths_harness())
+
 BOUNDS = {
     'quick': {'uniform': 'symbolic horizontal coordinates, shift and index; depths from a list; '
               '0..1 reflections; quarter/half turns (arbitrary angles: see C08/C15 for the '
